@@ -259,6 +259,7 @@ pub fn exec(world: &mut World, op: &Value) -> String {
         "set_tab_width" => pb!().set_tab_width(n as usize),
         // take the bar's current style, give it a new template, put it back (keeps keys and tab width of the style object)
         "restyle" => { let p = pb!(); let name = op["tpl"].as_str().unwrap_or("M"); let kept = p.style(); let st = kept.clone().template(&tpl(name)).unwrap(); p.set_style(st); world.styles.insert(format!("restyled-{}-{}", b, world.styles.len()), kept); }
+        "copy_style" => { let other = op.get("b2").and_then(|x| x.as_i64()).unwrap_or(0); let st = match world.bar(other) { Some(o) => o.style(), None => return "nobar".into() }; pb!().set_style(st); }
         "reset" => pb!().reset(),
         "reset_eta" => pb!().reset_eta(),
         "reset_elapsed" => pb!().reset_elapsed(),
